@@ -156,19 +156,7 @@ func refTable(d Dialect, am *Model, a, b *Table) []Desc {
 		}
 	}
 	// foreign keys
-	for _, f := range a.FKs {
-		g := b.FK(f.Name)
-		if g == nil {
-			out = append(out, Desc{Kind: "DropForeignKey", Table: n, Object: f.Name})
-		} else if bits := refFK(d, f, g); bits != 0 {
-			out = append(out, Desc{Kind: "ModifyForeignKey", Table: n, Object: f.Name, Bits: uint(bits)})
-		}
-	}
-	for _, g := range b.FKs {
-		if a.FK(g.Name) == nil {
-			out = append(out, Desc{Kind: "AddForeignKey", Table: n, Object: g.Name})
-		}
-	}
+	out = append(out, refFKs(d, a, b)...)
 	// checks: identity is the name, or the content for an unnamed check.
 	bk := map[string]*Check{}
 	for _, k := range b.Checks {
@@ -290,10 +278,59 @@ func refIndex(d Dialect, a, b *Index) schema.ChangeKind {
 		return i.PagesPerRange
 	}
 	if typ(a) != typ(b) || a.Where != b.Where || strings.Join(a.Include, ",") != strings.Join(b.Include, ",") ||
-		a.NullsNotDist != b.NullsNotDist || a.Parser != b.Parser || ppr(a) != ppr(b) {
+		a.NullsNotDist != b.NullsNotDist || a.Parser != b.Parser || ppr(a) != ppr(b) || a.AutoSummarize != b.AutoSummarize {
 		k |= schema.ChangeAttr
 	}
 	return k
+}
+
+// refFKs compares the foreign keys of a table. They are identified by their symbol — except that on
+// SQLite a purely numeric symbol ("0", "1", …) is not a name but the position at which inspection found
+// an unnamed foreign key, so such a key of the current side is identified by what it constrains (columns
+// and target); a reported modification carries the symbol of the desired side.
+func refFKs(d Dialect, a, b *Table) []Desc {
+	var out []Desc
+	n := a.Name
+	paired := map[*ForeignKey]bool{}
+	for _, f := range a.FKs {
+		g := b.FK(f.Name)
+		if d == SQLite && isUint(f.Name) {
+			g = nil
+			for _, x := range b.FKs {
+				if !paired[x] && sameFKProps(f, x) {
+					g = x
+					break
+				}
+			}
+		}
+		if g == nil {
+			out = append(out, Desc{Kind: "DropForeignKey", Table: n, Object: f.Name})
+			continue
+		}
+		paired[g] = true
+		if bits := refFK(d, f, g); bits != 0 {
+			out = append(out, Desc{Kind: "ModifyForeignKey", Table: n, Object: g.Name, Bits: uint(bits)})
+		}
+	}
+	for _, g := range b.FKs {
+		if !paired[g] {
+			out = append(out, Desc{Kind: "AddForeignKey", Table: n, Object: g.Name})
+		}
+	}
+	return out
+}
+
+func isUint(s string) bool {
+	for _, r := range s {
+		if r < '0' || r > '9' {
+			return false
+		}
+	}
+	return s != ""
+}
+
+func sameFKProps(f, g *ForeignKey) bool {
+	return f.RefTable == g.RefTable && strings.Join(f.Cols, ",") == strings.Join(g.Cols, ",") && strings.Join(f.RefCols, ",") == strings.Join(g.RefCols, ",")
 }
 
 // action returns the effective referential action: not specified means NO ACTION, and MySQL documents
@@ -388,11 +425,18 @@ func Ambiguous(a, b *Model) string {
 			// SQLite does not store constraint names reliably: foreign keys with the same columns and
 			// target are the same foreign key whatever their symbols.
 			for _, f := range t.FKs {
+				partner := false
 				for _, g := range u.FKs {
-					if f.Name != g.Name && f.RefTable == g.RefTable && strings.Join(f.Cols, ",") == strings.Join(g.Cols, ",") &&
-						strings.Join(f.RefCols, ",") == strings.Join(g.RefCols, ",") {
+					same := sameFKProps(f, g)
+					partner = partner || same
+					if f.Name != g.Name && same && !isUint(f.Name) {
 						return "sqlite foreign keys differing only by symbol"
 					}
+				}
+				// a positional symbol of the current side that now belongs to ANOTHER key of the desired
+				// side: whether that is "the key changed" or "dropped and another one added" is undecidable.
+				if isUint(f.Name) && !partner && u.FK(f.Name) != nil {
+					return "sqlite positional foreign key symbol reused by a different key"
 				}
 			}
 		}
